@@ -46,6 +46,29 @@ class _CallableObject:
         return self._fn(*a, **k)
 
 
+class _SizedCallable(_CallableObject):
+    """a callable hook that is also an (empty) container: falsy, but perfectly callable"""
+
+    def __len__(self):
+        return 0
+
+
+class _LeaseToken:
+    """an abort predicate shaped like a lease: truthy while the lease is held, answers 'lost?' when called --
+    so the object turns falsy exactly when it starts answering True"""
+
+    def __init__(self, fn):
+        self._fn = fn
+        self._lost = False
+
+    def __call__(self):
+        self._lost = bool(self._fn())
+        return self._lost
+
+    def __bool__(self):
+        return not self._lost
+
+
 class Built:
     """Objects for one scenario: target entry point + per-call kwargs."""
 
@@ -143,7 +166,7 @@ class Built:
             on_metric=shaped(env.on_metric) if hooks.get("on_metric") else None,
             on_log=shaped(env.on_log) if hooks.get("on_log") else None,
             operation=hooks.get("operation"),
-            abort_if=env.abort_if if hooks.get("abort_if") else None,
+            abort_if=self._abort_shape(hooks, env) if hooks.get("abort_if") else None,
             sleep=h_call, before_sleep=b_call, sleeper=s_call,
             on_attempt_start=a_call_s, on_attempt_end=a_call_e,
         )
@@ -152,6 +175,15 @@ class Built:
         self._att_call = (a_call_s, a_call_e)
         self._targets = {}
         self.target_for(entry)
+
+    @staticmethod
+    def _abort_shape(hooks, env):
+        s = hooks.get("abort_shape", "method")
+        if s == "sized":
+            return _SizedCallable(env.abort_if)
+        if s == "partial":
+            return functools.partial(env.abort_if)
+        return env.abort_if
 
     def target_for(self, entry):
         """(target object, decorated function) for an entry point; all targets of a
@@ -335,9 +367,37 @@ async def run_call_async(built: Built, env: Env, cid: int, script: dict) -> None
         env._cs_by_task.pop(task, None)
 
 
+def _retry_object(built: Built, entry: str):
+    target, _ = built.target_for(entry)
+    if target is None:
+        return None
+    base = entry.split(".")[0]
+    if base == "Policy":
+        return target.retry
+    return target          # Retry / AsyncRetry, or RetryPolicy (which forwards attribute writes to its Retry)
+
+
 def apply_component_op(env: Env, built: Built, op) -> None:
     """Direct component operations / idle time between calls."""
     name = op[0]
+    if name == "reconfigure":
+        # the caller tightens / loosens caps on a live policy object between calls
+        patch, how = op[1], op[2]
+        obj = _retry_object(built, built.entry)
+        if obj is None:
+            return
+        if "max_unknown" in patch:
+            obj.max_unknown_attempts = patch["max_unknown"]
+        if "per_class" in patch:
+            new = {ErrorClass[c]: n for c, n in patch["per_class"].items()}
+            if how == "in_place":
+                cur = obj.per_class_max_attempts
+                cur.clear()
+                cur.update(new)
+            else:
+                obj.per_class_max_attempts = new
+        env.ev("RECONFIGURE", patch=patch, how=how)
+        return
     if name == "adv":
         env.clock.advance(op[1])
         env.ev("ADVANCE", us=op[1])
